@@ -36,7 +36,13 @@ package swagtool
 //@ loop 0 invariant start <= end && end <= len(tagStr) && forall(j, start, end, tagStr[j] != '"')
 
 
-//@ func ForceOrderedJSON props C08,C14 havocs
+// decodes, sorts enum arrays inside the decoded tree, re-encodes: touches the decoded tree only
+//@ extern encoding/json.Unmarshal
+//@ modifies boxed(v)
+//@ func sortEnumValues trusted
+//@ modifies any(elems(map[string]interface{})), any(elems([]interface{}))
+//@ func ForceOrderedJSON props C08,C14
+//@ modifies any(elems(map[string]interface{})), any(elems([]interface{}))
 //@ ensures implies(result1 != nil, len(result0) == 0)
 
 // Parsers return nil exactly when the text is not a number of the requested kind (decided by strconv: assumed).
@@ -70,3 +76,17 @@ package swagtool
 // entries, and at which position ----
 //@ spec isRouteParam(p definitions.FuncParam) bool = !p.IsContext && p.PassedIn != definitions.PassedInBody && p.PassedIn != definitions.PassedInForm
 //@ rec countRouteParams(r definitions.RouteMetadata, n int) int = ite(n <= 0, 0, countRouteParams(r, n-1) + ite(isRouteParam(r.FuncParams[n-1]), 1, 0))
+
+// ---- what the emitters expect of the metadata and the configuration handed to them ----
+// (established upstream: the receiver validator rejects void methods and body/form mixtures, the configuration
+// validator rejects two security schemes under one name)
+//@ spec noBodyFormMix(r definitions.RouteMetadata) bool = forall(i, 0, len(r.FuncParams), forall(j, 0, len(r.FuncParams), !(!r.FuncParams[i].IsContext && !r.FuncParams[j].IsContext && r.FuncParams[i].PassedIn == definitions.PassedInBody && r.FuncParams[j].PassedIn == definitions.PassedInForm)))
+//@ spec emittable(defs []definitions.ControllerMetadata) bool = forall(d, 0, len(defs), forall(k, 0, len(defs[d].Routes), len(defs[d].Routes[k].Responses) >= 1 && noBodyFormMix(defs[d].Routes[k])))
+//@ spec uniqueSchemes(s []definitions.SecuritySchemeConfig) bool = forall(i, 0, len(s), forall(j, 0, len(s), implies(i != j, s[i].SecurityName != s[j].SecurityName)))
+
+// The RFC-7807 component is appended to the struct models iff a plain `error` is in use (C07)
+//@ func AppendErrorSchema props C07,C14
+//@ requires models != nil
+//@ modifies *models, any(elems([]definitions.StructMetadata))
+//@ ensures implies(!hasAnyErrorTypes, *models == old(*models))
+//@ ensures implies(hasAnyErrorTypes, len(*models) == old(len(*models)) + 1 && (*models)[len(*models)-1].Name == definitions.Rfc7807ErrorName)
